@@ -12,6 +12,8 @@ import JominiModel.Proofs.TextTapeFaithful3
 import JominiModel.Proofs.WriterGenParse
 import JominiModel.Proofs.WriterBinary
 import JominiModel.Proofs.WriterMixedParse
+import JominiModel.Proofs.WriterSink
+import JominiModel.Proofs.WriterFullCalls
 /-
 C15 — Well-formed sequences of writer calls parse back to exactly what was written.
 Only property theorems live here; helper lemmas are in `Proofs/Writer.lean`, reference
@@ -592,6 +594,133 @@ example : FloatText [45, 48, 46, 51, 48, 48, 48, 48, 48, 48, 48, 48, 48, 48, 48,
   ⟨true, [48], [46, 51, 48, 48, 48, 48, 48, 48, 48, 48, 48, 48, 48, 48, 48, 48, 48, 48, 52], rfl, by simp, by decide,
     .inr ⟨_, rfl, by simp, by decide⟩⟩
 
+/-- **Parse-back over the text-tape slice's FULL document type.**  `dcallsF d` (Spec/WriterFull.lean) is
+the call list that writes the document `d : FFields`: `write_object_start` / `write_array_start`,
+`write_unquoted` of every scalar's text (every scalar call — quoted, boolean, integer, date, float —
+acts like that, `step_scall`), `write_header`, `write_operator`, `start_mixed_mode` where the array turns
+into a key-value list, `write_end`.  For every valid `d` (any layout `gt` of it: only the scalars'
+validity matters) that is `FPlainF` and `CallsOKF`, every blank indent byte and factor, the written
+bytes parse, and the tape is `d`'s content (`dtapeF d`: keys, operators, scalars, `Header`,
+`MixedContainer`, container kinds, mixed flags, `End` links).  This covers everything
+`C15_parse_back_containers` covers and the mixed-mode call lists with CONTAINERS: container elements in
+front of `start_mixed_mode`, containers as values of `key op value` groups and as elements of the array
+part, nested to any depth (mixed arrays inside them included).
+
+The proof is the bridge `run (dcallsF d) = semF d` (Proofs/WriterFullCalls.lean: the calls do to the writer
+exactly what `write_tape` does on `d`'s tape) followed by the chain of `C14_roundtrip_full`.
+
+`CallsOKF`: no parameter blocks (there is no call for them), and no operator behind a container in the
+same array part.  The latter FAILS on the real code (`wcalls … as 1 mm b = c as x e d = e f g e`): the
+container's `write_end` switches the mixed mode off, the next `write_operator` takes its object branch
+and turns the writer to object mode, and the bare elements `f g` come out as `f=g`. -/
+theorem C15_parse_back_full (d : TextTape.FFields) (gt : Bytes) (c : UInt8) (f : Nat)
+    (hc : TextTape.isBlank c = true) (hv : TextTape.FValidF d gt) (hplain : FPlainF false d) (hcalls : CallsOKF d)
+    (hb : TextTape.hasBom (run (dcallsF d) (State.init c f)).1.out = false) :
+    ∃ T, TextTape.parse (run (dcallsF d) (State.init c f)).1.out = .ok T false ∧
+      T.map TextTape.Tok.erase = TextTape.dtapeF d 0 :=
+  parse_back_full c f hc d gt hv hplain hcalls hb
+
+/-- the hypotheses are satisfiable: `d={ 10 d=e }` as a document of the full type -/
+example : ∃ T, TextTape.parse (run (dcallsF (WriterParse.mixedLay 32 2
+      ⟨.unq [100], .unq [49, 48], [], [(.unq [100], .eq, .unq [101])]⟩)) (State.init 9 1)).1.out = .ok T false ∧
+    T.map TextTape.Tok.erase = TextTape.dtapeF (WriterParse.mixedLay 32 2
+      ⟨.unq [100], .unq [49, 48], [], [(.unq [100], .eq, .unq [101])]⟩) 0 := by
+  have u : ∀ b : Bytes, (∀ x ∈ b, safeByte x = true) → b ≠ [] → (SCall.unq b).ValidX :=
+    fun b h hne => Or.inl (valid_of_safe b hne h)
+  have hgood : MixedDoc.Good ⟨.unq [100], .unq [49, 48], [], [(.unq [100], .eq, .unq [101])]⟩ := by
+    refine ⟨u _ (by decide +kernel) (by simp), u _ (by decide +kernel) (by simp), by simp, ?_, by simp [SCall.scal, TextTape.Scal.text]⟩
+    intro p hp
+    simp at hp
+    subst hp
+    exact ⟨u _ (by decide +kernel) (by simp), by simp, u _ (by decide +kernel) (by simp)⟩
+  refine C15_parse_back_full _ [] 9 1 (by decide +kernel) (WriterParse.valid_mixedLay 32 2 (by decide +kernel) _ hgood)
+    ?_ ?_ (by decide +kernel)
+  · simp [WriterParse.mixedLay, WriterParse.elemVals, WriterParse.pairItems, FPlainF, FPlainV, FPlainVs, FPlainI,
+      bareQuestion, gluesOp, closesV, SCall.scal, TextTape.Scal.text]
+  · simp [WriterParse.mixedLay, WriterParse.elemVals, WriterParse.pairItems, CallsOKF, CallsOKV, CallsOKVs, CallsOKI]
+
+/-- **Mixed-mode call lists with containers** (`C15_mixed_parse_back` beyond scalars): the instance of
+`C15_parse_back_full` for one root field whose value is an array that turns mixed —
+`key, write_array_start, elements…, start_mixed_mode, key, operator, (values | key operator value |
+containers)…, write_end`, where elements, values and members of the array part may be containers written
+through their own call lists, to any depth. -/
+theorem C15_mixed_parse_back_containers (key : TextTape.Scal) (v : TextTape.FVal) (gt : Bytes) (c : UInt8) (f : Nat)
+    (hc : TextTape.isBlank c = true) (hv : TextTape.FValidF (.cons [] key [] .eq v .nil) gt)
+    (hplain : FPlainV false v) (hcalls : CallsOKV v)
+    (hb : TextTape.hasBom (run (.unquoted key.text :: dcallsV v) (State.init c f)).1.out = false) :
+    ∃ T, TextTape.parse (run (.unquoted key.text :: dcallsV v) (State.init c f)).1.out = .ok T false ∧
+      T.map TextTape.Tok.erase = TextTape.dtapeF (.cons [] key [] .eq v .nil) 0 := by
+  have hcalls' : dcallsF (.cons [] key [] .eq v .nil) = .unquoted key.text :: dcallsV v := by
+    simp [dcallsF, opCallsT]
+  rw [← hcalls'] at hb ⊢
+  exact C15_parse_back_full _ gt c f hc hv (by simp [FPlainF, hplain]) (by simp [CallsOKF, hcalls]) hb
+
+/-- `a={ 1 c<d b={ x=y } { z } e }` written through calls — `a, [, 1, mixed, c, <, d, b, =, {x y}, [z], e, ]`:
+a container as the value of a pair and a container as an element of the array part.  Bytes, parse-back and
+the described content, computed -/
+example :
+    let d : TextTape.FFields := .cons [] ⟨false, [97]⟩ [] .eq
+      (.arrSM [] [] ⟨false, [49]⟩ .nil [32] ⟨false, [99]⟩ [] .lt
+        (.scal [] ⟨false, [100]⟩ (.scal [32] ⟨false, [98]⟩ (.op [] .eq
+          (.cont (.obj [] [] (.kv ⟨false, [120]⟩ [] .eq (.scal [] ⟨false, [121]⟩)) .nil [])
+            (.cont (.arrS [32] [] ⟨false, [122]⟩ .nil []) (.scal [32] ⟨false, [101]⟩ .nil)))))) []) .nil;
+    (match TextTape.parse (run (dcallsF d) (State.init 32 2)).1.out with
+     | .ok T false => decide (T.map TextTape.Tok.erase = TextTape.dtapeF d 0 ∧ T.length = 18)
+     | _ => false) = true := by
+  decide +kernel
+
+/-- **I/O errors** ("misordered calls … return an error or well-defined output, never a panic",
+extended to a failing sink).  `runSink cap` (Model/WriterSink.lean) runs the call list on a writer
+whose sink accepts the first `cap` bytes and then refuses every non-empty write — every call
+mirrored statement by statement, the `?` after each write leaving the call with what was assigned to
+`self` before.  For EVERY call list (well-formed or not), every `cap`, indent byte and factor,
+compared with the same calls on an unlimited sink (`run`):
+
+  * the bytes that reached the sink are exactly the first `min cap len` bytes of the full output;
+  * some call returns `Err(io)` exactly when the full output is longer than `cap`;
+  * no call panics, before or after the failure, whatever state the failed call left behind;
+  * when the output fits, the two runs are identical (final writer, every observation, every
+    `StackEmpty`);
+  * otherwise there is a first failing call `k`: the writer and every observation / result before it
+    (`depth()`, `expecting_key()`, `at_array_value()`, `at_unknown_start()`, the whole private state)
+    are those of the unlimited run, and call `k` returns `Err(io)`.
+
+The model is tied to the real writer by the correspondence op `wcallsw` (bytes in the sink, result
+and observations of every call — also after the failure —, private state at the end). -/
+theorem C15_failing_sink (cs : List Call) (cap : Nat) (c : UInt8) (f : Nat) :
+    (runSink cap cs (State.init c f)).1.out = (run cs (State.init c f)).1.out.take cap ∧
+    ((∃ x ∈ (runSink cap cs (State.init c f)).2, x = .error .io) ↔ cap < (run cs (State.init c f)).1.out.length) ∧
+    (∀ x ∈ (runSink cap cs (State.init c f)).2, x ≠ .error .panic ∧ x ≠ .error .fuel) ∧
+    ((run cs (State.init c f)).1.out.length ≤ cap → runSink cap cs (State.init c f) = run cs (State.init c f)) ∧
+    (cap < (run cs (State.init c f)).1.out.length → ∃ k, k < cs.length ∧
+      runSink cap (cs.take k) (State.init c f) = run (cs.take k) (State.init c f) ∧
+      (runSink cap cs (State.init c f)).2.take k = (run cs (State.init c f)).2.take k ∧
+      (∀ x ∈ (runSink cap cs (State.init c f)).2.take k, x ≠ .error .io) ∧
+      (runSink cap cs (State.init c f)).2[k]? = some (.error .io)) := by
+  obtain ⟨h1, h2, h3, h4⟩ := sink_run cap cs (State.init c f) (by simp [State.init])
+  refine ⟨h1, ⟨fun ⟨x, hx, hio⟩ => ?_, fun hl => ?_⟩, h2, h3, fun hl => ?_⟩
+  · by_cases hl : cap < (run cs (State.init c f)).1.out.length
+    · exact hl
+    · rw [h3 (by omega)] at hx
+      exact absurd hio (run_rows_clean cs _ x hx).1
+  · obtain ⟨k, _, _, _, hk⟩ := h4 hl
+    exact ⟨_, List.mem_of_getElem? hk, rfl⟩
+  · obtain ⟨k, hk, e1, e2, e3⟩ := h4 hl
+    refine ⟨k, hk, e1, e2, fun x hx => ?_, e3⟩
+    rw [e2] at hx
+    exact (run_rows_clean cs _ x (List.mem_of_mem_take hx)).1
+
+/-- `a={⏎  b⏎}` needs 9 bytes; with room for 6 the sink holds `a={⏎  `, `write_unquoted(b)` is the first
+call that fails, `write_end` fails too, and the failed calls have left the newline flag cleared -/
+example : (runSink 6 [.unquoted [97], .arrayStart, .unquoted [98], .end] (State.init 32 2)).1.out =
+      [97, 61, 123, 10, 32, 32] ∧
+    (runSink 6 [.unquoted [97], .arrayStart, .unquoted [98], .end] (State.init 32 2)).2.map
+        (fun r => match r with | .ok o => some (some o.depth) | .error .io => some none | .error _ => none) =
+      [some (some 0), some (some 1), some none, some none] ∧
+    (run [.unquoted [97], .arrayStart, .unquoted [98], .end] (State.init 32 2)).1.out =
+      [97, 61, 123, 10, 32, 32, 98, 10, 125] := by
+  decide +kernel
+
 /-
 Growth theorem, NOT proved in general (full statement kept; `C15_lexemes_partial` is its flat instance):
 
@@ -611,7 +740,8 @@ Growth theorem, NOT proved in general (full statement kept; `C15_lexemes_partial
   containers, empty containers, headers, any nesting, every start flavour).  `write_binary`
   forwarding and `write_rgb` reduce to these (`C15_write_binary_eq_calls`, `C15_rgb_parse_back`), float
   texts are valid scalars (`C15_float_text_shape`), scalar-only mixed-mode call lists parse back
-  (`C15_mixed_parse_back`).  Missing: containers after `start_mixed_mode`, and the shapes the format cannot express (first element of an array
+  (`C15_mixed_parse_back`), and `C15_parse_back_full` covers the call list of every document of the
+  text-tape slice's full document type (mixed-mode lists with containers included).  Missing: the shapes the format cannot express (first element of an array
   an empty container, header with empty body, header / scalar directly followed by a container
   inside an array).  Until then the clause is decided on the real code: the harness re-parses the
   output of every well-formed call list with `TextTape::from_slice` and compares it with an
